@@ -115,6 +115,7 @@ class Engine(object):
         self.contract = None
         self.feas_timeout_ms = feas_timeout_ms
         self._feas_cache = {}
+        self._quant_cache = {}
         self._heap0 = {}
         self.spec_mode = 0
         self.loop_counter = 0
@@ -221,19 +222,41 @@ class Engine(object):
                         return hints
         return hints
 
+    def has_quant(self, t):
+        i = t.get_id()
+        c = self._quant_cache
+        if i in c:
+            return c[i]
+        todo = [t]
+        seen = set()
+        r = False
+        while todo:
+            x = todo.pop()
+            xi = x.get_id()
+            if xi in seen:
+                continue
+            seen.add(xi)
+            if z3.is_quantifier(x):
+                r = True
+                break
+            todo += x.children()
+        c[i] = r
+        return r
+
     def feasible(self, st):
+        """path pruning.  Only the quantifier-free part of the path condition is consulted (dropping
+        hypotheses can only keep more paths alive: sound), which keeps each check in the ms range."""
         if not st.pc:
             return True
-        key = tuple(c.get_id() for c in st.pc)
+        qf = [c for c in st.pc if not self.has_quant(c)]
+        key = tuple(c.get_id() for c in qf)
         if key in self._feas_cache:
             return self._feas_cache[key]
         self.feas_checks += 1
         s = z3.Solver()
         s.set('timeout', self.feas_timeout_ms)
-        for c in st.pc:
+        for c in qf:
             s.add(c)
-        for a in self.global_axioms:
-            s.add(a)
         r = s.check()
         ok = (r != z3.unsat)
         self._feas_cache[key] = ok
